@@ -1,33 +1,147 @@
 //! C08: framing is independent of segmentation; truncation is an error.
 
+use std::os::unix::io::AsRawFd;
+
+use super::client::{self, kind_typ};
 use super::server;
 use super::*;
-use crate::sched::Sim;
+use crate::sched::{FaultCfg, Sim};
 
 pub fn def() -> PropDef {
     PropDef {
         id: "C08",
         run,
-        quick_runs: 40_000,
-        thorough_runs: 1_500_000,
+        quick_runs: 48_000,
+        thorough_runs: 2_000_000,
         level: "fault_enumeration",
-        rule: "index%4: 0 = two-segment split of a canonical request of every type at every byte offset (enumerated), 1 = stream cut at every byte offset of every request type followed by close (enumerated), 2 = seeded sessions with random multi-way segmentation, peer-side yields between segments and receiver-side short reads (plus cut+close in a third of them), 3 = seeded sessions with sender-side partial writes and retry-class errnos on the server's replies; distinct = distinct (workload tape, interleaving, fault trace); non-trivial = a split, cut or I/O fault was applied",
+        rule: "index%8: 0 = two-segment split of a canonical request of every type at every byte offset against the backend request server (enumerated), 1 = stream cut at every byte offset of every request type followed by close (enumerated), 2 = seeded server sessions with random multi-way segmentation, peer-side yields between segments and receiver-side short reads (plus cut+close in a third of them), 3 = seeded server sessions with sender-side partial writes and retry-class errnos on the server's replies, 4 = real Frontend <-> real server sessions with short reads and partial writes on both sockets (frontend reply/ack receive paths and request send path), 5 = real Backend proxy <-> real FrontendReqHandler with short I/O on both sockets, 6 = one client call (Frontend / Backend proxy / GpuBackend, type swept) whose conformant reply is delivered in random segments, or cut at a random byte and followed by close (must be an error, never a hang, never a value), 7 = large GPU payloads through a non-blocking socket with a minimal kernel send buffer (kernel-made partial writes and EAGAIN); distinct = distinct (workload tape, interleaving, fault trace); non-trivial = a split, cut or I/O fault was applied",
         assumptions: ASSUME,
         real: REAL_W,
         stubs: STUB_W,
         sweep_size: |_| server::c08_server_space().len() as u64,
         sweep_desc: "backend request server as receiver: every (request type, 2-split offset) and every (request type, cut offset) of the canonical encoding of each of the 31 request types",
-        panic_prop: "C05",
+        panic_prop: "C08",
     }
 }
 
 fn run(sim: &Sim, cfg: &RunCfg) -> RunOut {
     sim.choose_policy();
-    let sub = cfg.index % 4;
-    let (desc, key) = server::c08_server_run(sim, cfg, sub, cfg.index / 4);
-    RunOut {
-        desc,
-        nontrivial: true,
-        sweep_key: key,
+    let sub = cfg.index % 8;
+    let i = cfg.index / 8;
+    match sub {
+        0..=3 => {
+            let (desc, key) = server::c08_server_run(sim, cfg, sub, i);
+            RunOut {
+                desc,
+                nontrivial: true,
+                sweep_key: key,
+            }
+        }
+        4 => {
+            let sess = sim.with_w(|t| {
+                super::fe::gen_fe_session(
+                    t,
+                    &super::fe::FeGen {
+                        max_items: 8,
+                        fail_rate: 0,
+                        forced_type: Some(i % server::N_FREQ_TYPES),
+                        local_reject_rate: 0,
+                        closed_gate_rate: 0,
+                    },
+                )
+            });
+            let d = format!("short I/O both ways: {}", super::fe::describe(&sess));
+            crate::runner::set_desc(&d);
+            let res = super::fe::run_fe_session(sim, &sess, true);
+            let j = super::fe::Judge {
+                prop: "C08",
+                c01: true,
+                c02: true,
+                c03: true,
+            };
+            if let Err(v) = super::fe::judge_fe(&j, &sess, &res) {
+                sim.violation(v);
+            }
+            RunOut {
+                desc: d,
+                nontrivial: true,
+                sweep_key: None,
+            }
+        }
+        5 => {
+            let sess = sim.with_w(|t| super::breq::gen_bsession(t, Some(i % super::breq::N_BREQ), true));
+            let d = format!("short I/O both ways: {}", super::breq::describe(&sess));
+            crate::runner::set_desc(&d);
+            let res = super::breq::run_bsession(sim, &sess, true);
+            if let Err(v) = super::breq::judge_b("C08", sim, &sess, &res, true) {
+                sim.violation(v);
+            }
+            RunOut {
+                desc: d,
+                nontrivial: true,
+                sweep_key: None,
+            }
+        }
+        6 => {
+            let (kind, typ) = kind_typ(i);
+            let mut case = sim.with_w(|t| client::gen_case(t, kind, typ));
+            case.answerless_close = false;
+            let (good, nf) = sim.with_w(|t| client::correct_reply(t, &case.target));
+            let (bytes, cuts, mutation) = sim.with_w(|t| {
+                if t.chance(1, 2) && good.len() > 1 {
+                    let n = t.draw(good.len() as u64) as usize;
+                    let c = server::gen_cuts(t, n.max(2), 5);
+                    (good[..n].to_vec(), c, "truncate")
+                } else {
+                    let mode = 1 + t.draw(5);
+                    let c = server::gen_cuts(t, good.len(), mode);
+                    (good.clone(), c, "none")
+                }
+            });
+            case.reply = Some(client::Reply {
+                bytes,
+                fds_first: nf,
+                fds_second: 0,
+                cuts,
+                mutation,
+            });
+            sim.st().faults = FaultCfg {
+                short_recv: 300,
+                only: vec!["client"],
+                ..Default::default()
+            };
+            let d = client::describe(&case);
+            crate::runner::set_desc(&d);
+            let res = client::run_case(sim, &case);
+            if let Err(v) = client::judge_case("C08", &case, &res, true) {
+                sim.violation(v);
+            }
+            RunOut {
+                desc: d,
+                nontrivial: true,
+                sweep_key: None,
+            }
+        }
+        _ => {
+            // kernel-made partial writes: non-blocking socket, minimal SO_SNDBUF, big payload
+            let typ = if i % 2 == 0 { 7 } else { 5 };
+            let mut case = sim.with_w(|t| client::gen_case(t, 2, typ));
+            case.answerless_close = false;
+            case.reply = None;
+            let d = format!("non-blocking tiny send buffer: {}", client::describe(&case));
+            crate::runner::set_desc(&d);
+            let res = client::run_case_opts(sim, &case, true);
+            if let Err(v) = client::judge_case("C08", &case, &res, true) {
+                sim.violation(v);
+            }
+            RunOut {
+                desc: d,
+                nontrivial: true,
+                sweep_key: None,
+            }
+        }
     }
 }
+
+#[allow(dead_code)]
+fn _u(_: &dyn AsRawFd) {}
